@@ -185,12 +185,18 @@ impl Display for PrettyDecimal {
                 if self.value.is_sign_negative() {
                     write!(f, "-")?;
                 }
-                let mantissa = self.value.abs().mantissa().to_string();
                 let scale: usize = self
                     .value
                     .scale()
                     .try_into()
                     .expect("32-bit or larger bit only");
+                // a value below one has no more mantissa digits than decimals:
+                // pad it, so that the integral part and the leading decimal zeros exist.
+                let mantissa = format!(
+                    "{:0>width$}",
+                    self.value.abs().mantissa(),
+                    width = scale + 1
+                );
                 let mut remainder = mantissa.as_str();
                 // Here we assume mantissa is all ASCII (given it's [0-9.]+)
                 let mut initial_integer = true;
